@@ -80,6 +80,7 @@ def gen_channel(rng, bnodes):
     ch["use_base"] = rng.random() < 0.3
     ch["full_nonhttp"] = rng.random() < 0.5      # urn:/mailto: IRIs written as <...> instead of prefixed names
     ch["rebind"] = rng.random() < 0.3            # prefix labels re-bound in the middle of a document
+    ch["magic_names"] = rng.random() < 0.3       # file names containing '[' and ']'
     ch["comments"] = rng.choice([0, 0, 1, 3])    # comment and blank lines between statements
     if tr in ("gz", "xz") and rng.random() < 0.35:
         ch["members"] = rng.randint(2, 3)
@@ -186,7 +187,9 @@ def build_channel(sim, triples, ch, tag):
     elif tr == "file":
         kw["graph_file_input"] = sim.write_file("%s.%s" % (tag, ext), docs[0])
     elif tr == "files":
-        kw["graph_list_of_files_input"] = [sim.write_file("%s_%d.%s" % (tag, i, ext), d) for i, d in enumerate(docs)]
+        # legal file names that a glob expansion would not match literally
+        kw["graph_list_of_files_input"] = [sim.write_file(("%s_part[%d].%s" if ch.get("magic_names") else "%s_%d.%s") % (tag, i, ext), d)
+                                           for i, d in enumerate(docs)]
     elif tr in ("gz", "xz"):
         paths = []
         for i, d in enumerate(docs):
